@@ -576,7 +576,30 @@ fn serve() {
         };
         let mut resp = Response { id: req.id, config: config_string(), ..Default::default() };
         let must_exit = match req.op.as_str() {
-            "run" => handle_run(&req, &mut resp),
+            "run" => match req.stack_kb {
+                None => handle_run(&req, &mut resp),
+                Some(kb) => {
+                    // on a thread of its own with the requested stack size (heap, module table and
+                    // panic message are per thread); an overflow of that stack aborts the process,
+                    // which the explorer records as a crash
+                    let sub = req.clone();
+                    let mut r = resp.clone();
+                    let handle = std::thread::Builder::new().stack_size(kb * 1024).spawn(move || {
+                        let stop = handle_run(&sub, &mut r);
+                        (r, stop)
+                    });
+                    match handle.map(|h| h.join()) {
+                        Ok(Ok((r, stop))) => {
+                            resp = r;
+                            stop
+                        }
+                        _ => {
+                            eprintln!("runner: could not run the request on its own thread");
+                            std::process::exit(3);
+                        }
+                    }
+                }
+            },
             "run_each" => {
                 // every snippet is an independent program on its own fresh interpreter
                 let mut stop = false;
